@@ -424,7 +424,7 @@ PROPS = {
     'C02': dict(groups=['lockstep', 'tree', 'handles']),
     'C03': dict(groups=['tree', 'alt', 'ovl', 'handles', 'xfer']),
     'C05': dict(groups=['tree', 'alt', 'ovl']),
-    'C12': dict(groups=['tree', 'alt', 'ovl', 'join', 'faults']),
+    'C12': dict(groups=['tree', 'alt', 'ovl', 'join', 'faults', 'hostiledir']),
     'C13': dict(groups=['tree', 'alt', 'ovl', 'join', 'handles', 'hostile', 'hostiledir', 'emb', 'async']),
     'C07': dict(groups=['alt', 'hostile']),
     'C08': dict(groups=['ovl', 'times', 'faults']),
